@@ -81,7 +81,7 @@ def _thorough_extras(check, module, prop_id, root, overlay):
             check.note('deep unrolling not completed: %s' % err)
     # (2) firing variants and silent twins, analysed in memory
     if overlay is None:
-        results = run_selftest(prop_id, root)
+        results = run_selftest(prop_id, root, twin_sample=90, seed=check.seed)
         summary = summarise(results)
         summary['details'] = [
             {k: r.get(k) for k in ('id', 'kind', 'status', 'what', 'reported')}
